@@ -14,9 +14,10 @@ RULE = ('generated mem-mode module (accessor function per load/store flavour x s
         'multi-byte access, a sign-extending load of a value with the sign bit set, a grow after a store, an overlapping copy '
         'or a failing grow; distinct by (module, history). A second generator (c05_bigmem) uses a memory of just over 2 GiB so '
         'that effective addresses with the sign bit set, base + static offset crossing 2^31 and data segments at such offsets are in '
-        'bounds (sparse model memory; plain builds only). NOT decided: the no-32-bit-wrap clause of the effective address '
+        'bounds (sparse model memory; plain builds only). A third (c05_hostlimit) lowers the address-space limit of the driver process: grows of gigabytes then fail with -1 and must change nothing (size, contents, the old size reported next). NOT decided: the no-32-bit-wrap clause of the effective address '
         '(unobservable in bounds, DESIGN section 8).')
 ASSUME = ['reference interpreter calibrated against the spec-suite expectations (memory_copy/fill/init/grow suites included)',
+          'under an address-space limit of N pages an allocation of 2N pages fails and grows of a few pages succeed',
           'grows that the specification allows to fail for lack of memory are only generated up to 64 pages total',
           'addresses are in bounds by construction (w2c2 performs no bounds check)']
 
@@ -343,13 +344,54 @@ def make_hugegrow(ch, params):
     return m, script, {'nontrivial_fn': nt, 'ninst': 1, 'classes': {'grow_towards_4GiB': 1, 'grow_to_exactly_65536_pages': 1 if 1 + delta == 65536 else 0}}
 
 
+@f1.maker('c05_hostlimit')
+def make_hostlimit(ch, params):
+    """memory.grow on a host that cannot provide the memory: the driver lowers its address-space limit, small grows still succeed,
+    a grow of gigabytes (allowed by the declared maximum) fails with -1 - and then nothing may have changed: memory.size, the
+    contents, the old size the next grow reports"""
+    m = Module()
+    mx = ch.pick((None, None, 65536, 60000))
+    m.memory = (1 + ch.below(2), mx)
+    m.exports.append((b'mem', 'memory', 0))
+    T = m.type_index
+    m.funcs.append(Func(T((I32,), (I32,)), [], [('local.get', 0), ('memory.grow',)]))
+    m.funcs.append(Func(T((I32, I64), ()), [], [('local.get', 0), ('local.get', 1), ('i64.store', 0, 0)]))
+    m.funcs.append(Func(T((I32,), (I64,)), [], [('local.get', 0), ('i64.load', 0, 0)]))
+    m.funcs.append(Func(T((), (I32,)), [], [('memory.size',)]))
+    for i, n in enumerate((b'grow', b'st', b'ld', b'size')):
+        m.exports.append((n, 'func', i))
+    limit = ch.pick((4096, 8192))                      # 256 / 512 MiB
+    script = e2e.default_setup(m, 1) + [('hostlimit', limit)]
+    spots = [0, 8, 4096, 65528]
+    for a in spots:
+        script.append(('call', 0, 1, [a, ch.bits(64)]))
+    for step in range(3 + ch.below(5)):
+        k = ch.below(4)
+        if k == 0:
+            script.append(('call', 0, 0, [ch.pick((0, 1, 2, 3))]))                    # succeeds
+        else:
+            script.append(('call', 0, 0, [ch.pick((2 * limit, 2 * limit + 1, 30000, 40000, 50000, 65535 - 8))]))      # the host cannot
+        script.append(('call', 0, 3, []))
+        a = ch.pick(spots)
+        script += [('call', 0, 2, [a]), ('call', 0, 1, [a, ch.bits(64)]), ('call', 0, 2, [a])]
+    script.append(('call', 0, 0, [1]))
+    script.append(('call', 0, 3, []))
+    script.append(('mem', 0))
+
+    def nt(m_, script_, model, meta):
+        return [(f1.hx(repr(script_)), [])]
+    return m, script, {'nontrivial_fn': nt, 'ninst': 1, 'classes': {'grow_refused_by_the_host': 1}}
+
+
 def plan(tier, seed):
+    hostlimit = {'maker': 'c05_hostlimit', 'ccs': ['gcc-O0', 'clang-O2', 'gcc-O2', 'clang-O0'], 'shrink_budget': 4, 'reduce_budget': 4,
+                 'encoding_knobs': False}
     big = {'maker': 'c05_bigmem', 'ccs': ['gcc-O0', 'clang-O2', 'gcc-O2', 'clang-O0'], 'shrink_budget': 6, 'reduce_budget': 6}
     huge = {'maker': 'c05_hugegrow', 'ccs': ['gcc-O0', 'clang-O2', 'gcc-O2', 'clang-O1-san'], 'shrink_budget': 4, 'reduce_budget': 4,
             'encoding_knobs': False}
     if tier == 'quick':
-        return plan_histories(tier) + [dict(big, ncases=2) for _ in range(4)] + [dict(huge, ncases=4) for _ in range(2)]
-    return plan_histories(tier) + [dict(big, ncases=12) for _ in range(8)] + [dict(huge, ncases=30) for _ in range(4)]
+        return plan_histories(tier) + [dict(big, ncases=2) for _ in range(4)] + [dict(huge, ncases=4) for _ in range(2)] + [dict(hostlimit, ncases=6) for _ in range(2)]
+    return plan_histories(tier) + [dict(big, ncases=12) for _ in range(8)] + [dict(huge, ncases=30) for _ in range(4)] + [dict(hostlimit, ncases=60) for _ in range(4)]
 
 
 def plan_histories(tier):
